@@ -91,7 +91,7 @@ impl Lib {
     pub fn g_has_any(e: &Env, caller: Address) -> u32 {
         6
     }
-    #[has_any_role(caller, ["burner", "r2", "r3"])]
+    #[has_any_role(caller, ["burner", "r2", "admin"])]
     pub fn g_has_any_auth(e: &Env, caller: Address) -> u32 {
         caller.require_auth();
         7
@@ -100,7 +100,7 @@ impl Lib {
     pub fn g_only_any(e: &Env, caller: Address) -> u32 {
         8
     }
-    #[only_any_role(caller, ["r4"])]
+    #[only_any_role(caller, [""])]
     pub fn g_only_any_one(e: &Env, caller: Address) -> u32 {
         9
     }
@@ -122,10 +122,17 @@ enum Kind {
     Own,
 }
 
+/// Role universe. Besides ordinary names it contains names that could collide with a default or
+/// sentinel value: the EMPTY symbol (which `set_role_admin_no_auth` uses for "no previous admin
+/// role" in its event) and "admin".
+const EMPTY_ROLE: usize = 4;
+
 fn role_name(r: usize) -> String {
     match r {
         0 => "minter".into(),
         1 => "burner".into(),
+        3 => "admin".into(),
+        EMPTY_ROLE => "".into(),
         _ => format!("r{}", r),
     }
 }
@@ -134,6 +141,8 @@ fn role_index(name: &str) -> Option<usize> {
     match name {
         "minter" => Some(0),
         "burner" => Some(1),
+        "admin" => Some(3),
+        "" => Some(EMPTY_ROLE),
         _ => name.strip_prefix('r').and_then(|x| x.parse().ok()),
     }
 }
@@ -169,7 +178,7 @@ impl Sim {
             Kind::Own => (e.register(ownable_example::ExampleContract, (u.a(0).clone(),)), "-", "0"),
         };
         t.seq(&format!(
-            "{} kind={} min_temp={} max_ttl={} start={} admin={} owner={}",
+            "{} kind={} min_temp={} max_ttl={} start={} admin={} owner={} empty={}",
             what,
             match kind {
                 Kind::Lib => "lib",
@@ -180,7 +189,8 @@ impl Sim {
             max_ttl,
             start,
             admin,
-            owner
+            owner,
+            EMPTY_ROLE
         ));
         Sim { e, u, c, kind, now: start, min_temp, max_ttl, next_token: 0, swapped: [None; R] }
     }
@@ -283,14 +293,18 @@ impl Sim {
             let topic_addr = |i: usize| ev_addr(&self.u, ev.topics.get(i));
             let sym = |v: Option<&soroban_sdk::xdr::ScVal>| match v {
                 Some(soroban_sdk::xdr::ScVal::Symbol(s)) => {
-                    let s = s.to_utf8_string_lossy();
-                    if s.is_empty() {
-                        "-".to_string()
-                    } else {
-                        role_index(&s).map(|x| x.to_string()).unwrap_or("?".into())
-                    }
+                    role_index(&s.to_utf8_string_lossy()).map(|x| x.to_string()).unwrap_or("?".into())
                 }
                 _ => "?".into(),
+            };
+            // "no previous admin role" is published as the empty symbol
+            let prev = |v: Option<&soroban_sdk::xdr::ScVal>| {
+                let x = sym(v);
+                if x == EMPTY_ROLE.to_string() {
+                    "-".to_string()
+                } else {
+                    x
+                }
             };
             let lu = ev_field(&ev.data, "live_until_ledger").and_then(sc_u32).map(|x| x.to_string()).unwrap_or("?".into());
             match ev.name.as_str() {
@@ -299,7 +313,7 @@ impl Sim {
                 "role_admin_changed" => out.push(format!(
                     "radm:{}:{}:{}",
                     sym(ev.topics.get(0)),
-                    sym(ev_field(&ev.data, "previous_admin_role")),
+                    prev(ev_field(&ev.data, "previous_admin_role")),
                     sym(ev_field(&ev.data, "new_admin_role"))
                 )),
                 "ownership_transfer" => out.push(format!("xfer:{}:{}:{}", a("old_owner"), a("new_owner"), lu)),
@@ -564,6 +578,51 @@ fn directed(t: &mut Trace, thorough: bool) {
     s.rm_ra(t, 3, &[]);
     s.grant(t, false, 0, 3, 2, &[2]);
 
+    // role names that collide with defaults / sentinels: the EMPTY symbol (role 4) and "admin"
+    // (role 3). Holding them confers nothing unless they are configured as a role's admin role.
+    for kind in [Kind::Lib, Kind::Nft] {
+        let mut s = Sim::new(t, "directed empty-symbol and admin-named roles", kind, 1, 100);
+        s.grant(t, false, 3, EMPTY_ROLE, 0, &[0]); // stranger 3 gets the role named ""
+        s.grant(t, false, 2, 3, 0, &[0]); // stranger 2 gets the role named "admin"
+        for caller in [3usize, 2] {
+            s.grant(t, false, 1, 0, caller, &[caller]); // no admin role configured for 0: refused
+            s.grant(t, false, 1, EMPTY_ROLE, caller, &[caller]); // nor may they extend their own role
+            s.grant(t, false, 1, 3, caller, &[caller]);
+            s.revoke(t, false, 3, EMPTY_ROLE, caller, &[caller]);
+            s.revoke(t, false, 2, 3, caller, &[caller]);
+            s.rt(t, "adm", "guarded", 0, 0, &[caller]);
+            if kind == Kind::Lib {
+                s.ensure_aor(t, 0, caller, &[]);
+                s.ensure_aor(t, EMPTY_ROLE, caller, &[]);
+            }
+        }
+        s.grant(t, false, 1, 0, 0, &[0]);
+        s.revoke(t, false, 1, 0, 3, &[3]);
+        s.revoke(t, false, 1, 0, 2, &[2]);
+        s.set_ra(t, false, 1, EMPTY_ROLE, &[0]); // now "" IS the admin role of role 1 (event: prev = none)
+        s.grant(t, false, 4, 1, 3, &[3]); // ... so its holder may grant role 1
+        s.grant(t, false, 4, 0, 3, &[3]); // ... but still not role 0
+        s.grant(t, false, 4, 1, 2, &[2]);
+        s.set_ra(t, false, 1, 3, &[0]); // previous admin role "" is published like "none"
+        s.set_ra(t, false, 1, EMPTY_ROLE, &[0]);
+        s.set_ra(t, false, EMPTY_ROLE, EMPTY_ROLE, &[0]); // self-administered ""
+        s.grant(t, false, 1, EMPTY_ROLE, 3, &[3]);
+        s.rt(t, "adm", "renounce", 0, 0, &[0]);
+        s.grant(t, false, 0, 0, 3, &[3]); // after the admin is gone: still no authority over role 0
+        s.grant(t, false, 0, 2, 1, &[1]);
+        s.revoke(t, false, 1, 0, 3, &[3]);
+        s.grant(t, false, 0, 1, 1, &[1]); // role 1 is administered by ""
+        s.has_any(t, 2, true, &[2]);
+        s.only_any(t, 3, true, &[3]);
+        s.only_any(t, 2, true, &[2]);
+        if kind == Kind::Lib {
+            s.rm_ra(t, 1, &[]);
+            s.grant(t, false, 2, 1, 3, &[3]); // admin role removed: "" holders lose role 1 again
+            s.rm_ra(t, EMPTY_ROLE, &[]);
+            s.grant(t, false, 2, EMPTY_ROLE, 3, &[3]);
+        }
+    }
+
     // admin hand-over changes who may grant; guards follow the holder
     let mut s = Sim::new(t, "directed admin / owner hand-over and guards", Kind::Lib, 1, 100);
     s.rt(t, "adm", "guarded", 0, 0, &[0]);
@@ -752,7 +811,7 @@ fn random_sequence(t: &mut Trace, rng: &mut Rng, k: u64, seed: u64, len: u64) {
             continue;
         }
         let lib = kind == Kind::Lib;
-        let r = if rng.chance(80) { rng.below(3) as usize } else { rng.below(R as u64) as usize };
+        let r = if rng.chance(65) { rng.below(3) as usize } else { rng.below(R as u64) as usize };
         let grant_hi = 18 + 8 * grant_bias;
         if x < grant_hi {
             // grant: by an entitled caller or by anybody
